@@ -2,6 +2,7 @@
 serde_json / serde_smile / erased_serde (a document cursor) and of the async stream machinery."""
 import z3
 from mirsym.values import Agg, Enum, Ptr, Seq, BStr, UNIT, Panic, Unwind, Coro, bv, bstr, bstr_eq, bstr_concat, is_abnormal
+from mirsym.values import bv as bv_
 from mirsym.parse import Unsupported
 from mirsym.models_std import fork_bool
 from mirsym.models_http import error_record
@@ -173,6 +174,45 @@ def cursor_models(doc, log):
         cell = st.ref(Agg('CursorState', (z3.BoolVal(False), z3.BoolVal(False))))    # (deserialized, ended)
         yield st, Agg('serde::Deserializer', (Agg('DocCursor', (body, cell, ctx.callee.key.split('::')[0])),))
 
+    def M_from_reader(it, ctx, args, st):
+        """serde_json / serde_smile Deserializer::from_reader(r): the document is what `r` yields until its first Ok(0) (or error);
+        the reader is driven here with a buffer that holds a whole chunk (one admissible schedule of read calls: stated)"""
+        T = ctx.targs[0] if ctx.targs else None
+        R = T[2][0] if T is not None and T[0] == 'path' and T[2] else T
+        reader = args[0]
+        rp = reader if isinstance(reader, Ptr) else st.ref(reader)
+        CAP = 4
+        MAXPULL = 8
+
+        def pull(s, body, k):
+            if k >= MAXPULL:
+                yield s, Unwind('from_reader: more than %d read calls' % MAXPULL, ctx.fr.fn.name)
+                return
+            bufp = s.ref(BStr(tuple(z3.BitVecVal(0, 8) for _ in range(CAP)), bv_(CAP)))
+            for s2, r in it.call_trait(ctx.fr, R if R[0] != 'ref' else R[2], 'std::io::Read', 'read', [], [rp, bufp], s):
+                if is_abnormal(r):
+                    yield s2, r
+                    continue
+                for s3, i, pl in it.enum_cases(r, s2):
+                    if r.decl.variants[i][0] == 'Err':
+                        yield s3, ('io-error', body, pl.fields[0])
+                        continue
+                    n = pl.fields[0]
+                    for s4, eof in fork_bool(it, s3, n == 0):
+                        if eof:
+                            yield s4, ('eof', body, None)
+                        else:
+                            got = s4.deref_all(bufp)
+                            yield from pull(s4, bstr_concat(body, BStr(got.bytes, n)), k + 1)
+        for s5, res in pull(st, bstr(b''), 0):
+            if is_abnormal(res):
+                yield s5, res
+                continue
+            how, body, err = res
+            cell = s5.ref(Agg('CursorState', (z3.BoolVal(False), z3.BoolVal(False))))
+            cur = Agg('DocCursor', (body, cell, ctx.callee.key.split('::')[0], how == 'io-error'))
+            yield s5, Agg('serde::Deserializer', (cur,))
+
     def T_doc_deserialize(it, ctx, args, st):
         cur = find_cursor(st, args[0])
         if cur is None:
@@ -181,6 +221,10 @@ def cursor_models(doc, log):
         st.write(cell, Agg('CursorState', (z3.BoolVal(True), st.deref(cell).fields[1])))
         st.aux['doc_body'] = cur.fields[0]
         st.aux['doc_server'] = 'Server' in repr(args[0])[:0]
+        if len(cur.fields) > 3 and cur.fields[3]:
+            # the reader failed before end of input: the parser reports the I/O error
+            yield st, it.err(Agg('serde::Error', ('io error while reading the document',)))
+            return
         for s2, good in fork_bool(it, st, doc.doc_valid):
             yield s2, (it.ok(Agg('DocValue', ())) if good else it.err(Agg('serde::Error', ('invalid document',))))
 
@@ -198,6 +242,7 @@ def cursor_models(doc, log):
             yield s2, (it.ok(it.some(okp.fields[0])) if okp is not None else r)
 
     models = [
+        (r'serde_json::Deserializer::<.*>::from_reader|serde_smile::Deserializer::<.*>::from_reader|serde_smile::de::Deserializer::<.*>::from_reader', M_from_reader),
         (r'serde_json::Deserializer::<.*>::from_slice|serde_json::Deserializer::from_slice|serde_smile::Deserializer::<.*>::from_slice|serde_smile::Deserializer::from_slice|serde_smile::de::Deserializer::<.*>::from_slice', M_from_slice),
         (r'serde_json::Deserializer::<.*>::end|serde_json::Deserializer::end|serde_smile::Deserializer::<.*>::end|serde_smile::de::Deserializer::<.*>::end', M_end),
     ]
